@@ -191,6 +191,10 @@ def whole_result_section(ctx, cfgs, fields, want):
             continue
         if not all(k in cfg for k in ("lens", "W", "N", "K", "m", "limit", "biased")):
             continue
+        if cfg.get("shift") and max(abs(float(x)) for x in cfg["shift"]) > 1e5:
+            continue        # exact-vs-float comparison at 1e-8 is not meaningful on a 1e6+ offset (rounding of the means)
+        if cfg.get("completion") is not None:
+            continue        # solver calls are recorded in completion order there
         npts = sum(l - cfg["W"] + 1 for l in cfg["lens"])
         if npts * cfg["N"] * cfg["W"] > 1500:
             continue
